@@ -120,7 +120,7 @@ let big (mode : string) (fam : string) (args : string list) (toks : string list)
 
 let editable (g : gval) : egraph = match g with GD d -> ED d | GS s -> ES s | _ -> failwith "not editable"
 
-let run (line : string) : string =
+let rec run (line : string) : string =
   let semi = String.index line ';' in
   let head = fields (String.sub line 0 semi) in
   let toks = fields (String.sub line (semi + 1) (String.length line - semi - 1)) in
@@ -130,7 +130,9 @@ let run (line : string) : string =
   let narg i = ni (arg i) in
   let itoks () = List.map int_of_string toks in
   let full g = dump g in
-  let wfonly g = let n = int_of_nat (g_N g) in Printf.sprintf "wf N=%d ## %s" n (dump g) in
+  (* the strict dump of a large graph is left out on both sides (slow in the unary model) *)
+  let wfonly g = let n = int_of_nat (g_N g) in
+    if n <= 70 then Printf.sprintf "wf N=%d ## %s" n (dump g) else Printf.sprintf "wf N=%d" n in
   let d o = GD (get o) in
   match kind with
   | "complete" -> full (d (complete_graph (narg 0)))
@@ -200,6 +202,10 @@ let run (line : string) : string =
     let g1 = get (contract g (narg 2) (narg 3)) in
     let d1 = full (e_val g1) in
     d1 ^ " => " ^ full (e_val (get (split_edge g1 (narg 4) (narg 5))))
+  | "twice" ->
+    (* the same call twice, the second result edited: the first is what it was (functional model) *)
+    let s = run (String.sub line 6 (String.length line - 6)) in
+    s ^ " => " ^ s
   | "big" -> big (List.nth args 0) (List.nth args 1) (List.tl (List.tl args)) toks
   | "viewedit" ->
     (* views of an editable base, observed before and after every edit of the base: the view
